@@ -138,7 +138,10 @@ class P2PNet(Engine):
     # ---- the protocol's own maxima (a peer flushing a full queue sends exactly these counts); the plan
     # carries only a recipe, the entries are expanded at execution time
     LIMIT_PLANS = [('inv', 'inv', 50000), ('getdata', 'inv', 50000), ('notfound', 'inv', 50000), ('inv', 'inv', 49999),
-                   ('addr', 'addrs', 1000), ('headers', 'headers', 2000), ('getheaders', 'have', 101), ('getblocks', 'have', 500)]
+                   ('addr', 'addrs', 1000), ('headers', 'headers', 2000), ('getheaders', 'have', 101), ('getblocks', 'have', 500),
+                   # payloads whose LENGTH is a round binary number (a reader that fetches in chunks must get the last one right)
+                   ('reject', 'payload-size', 1 << 20), ('reject', 'payload-size', 2 << 20), ('reject', 'payload-size', (1 << 20) + 1),
+                   ('reject', 'payload-size', 65536), ('alert', 'payload-size', 1 << 16)]
 
     def systematic(self, prop, tier):
         plans = []
@@ -173,6 +176,20 @@ class P2PNet(Engine):
             m['f']['headers'] = [{'version': 4, 'prev': h(i), 'merkle': h(i + n), 'time': 1600000000 + i, 'bits': 0x1d00ffff, 'nonce': i} for i in range(n)]
         elif e['field'] == 'have':
             m['f']['have'] = [h(i) for i in range(n)]
+        elif e['field'] == 'payload-size':
+            # grow one variable-length field until the whole payload has exactly n bytes
+            if m['type'] == 'reject':
+                m['f'] = {'message': '7478', 'ccode': 0x10, 'reason': ''}
+                fld = 'reason'
+            else:
+                m['f'] = {'msg': '', 'sig': ''}
+                fld = 'msg'
+            for _ in range(4):
+                cur = len(RP.enc_payload(m['type'], m['f']))
+                if cur == n:
+                    break
+                have = len(m['f'][fld]) // 2
+                m['f'][fld] = ('%02x' % (salt + 0x41)) * max(0, have + (n - cur))
         return m
 
     def _gen_sizes(self, rng):
